@@ -37,13 +37,20 @@ func evalOnce(c J) interface{} {
 	if err != nil {
 		return J{"create": errKind(err)}
 	}
+	ropts := buildOpts(c["ropts"])
+	// "reads0": the same kind of reads performed BEFORE the merges; what they return is not reported (a read leaves the
+	// configuration as it is: what is read after the merges must not depend on what was read before them), a crash is
+	for _, rd := range arr(c, "reads0") {
+		if res, ok := doRead(cfg, obj(rd), ropts).(J); ok && res["panic"] != nil {
+			return J{"panic": res["panic"]}
+		}
+	}
 	for _, m := range arr(c, "merges") {
 		mo := obj(m)
 		if err := cfg.Merge(buildValue(mo["b"]), buildOpts(mo["opts"])...); err != nil {
 			return J{"merge": errKind(err)}
 		}
 	}
-	ropts := buildOpts(c["ropts"])
 	var out []interface{}
 	for _, rd := range arr(c, "reads") {
 		out = append(out, doRead(cfg, obj(rd), ropts))
